@@ -31,6 +31,8 @@ type Wide struct {
 	K string `sod:"unique"`
 	// N is unique too (an integer): the sweeps give every object its own
 	N int `sod:"unique"`
+	// Body is an unindexed payload (large values)
+	Body string `json:",omitempty"`
 }
 
 var errWideInvalid = errors.New("wide: invalid")
